@@ -692,6 +692,9 @@ fn resolve_all(base: &str, base_abs: bool, rf: &str, rf_ref: bool, rf_abs: bool)
             typed.push(("BaseIri::as_ref().resolve(BaseIriRef<&str>)", quiet(|| { let b = Iri::new(base.to_string()).unwrap().to_base(); let ri = IriRef::new(rf).unwrap(); BaseIri::as_ref(&b).resolve(ri.as_base()).unwrap() })));
             typed.push(("BaseIri::resolve_into(IriRef<&str>)", quiet(|| { let bi = Iri::new(base).unwrap(); let b = bi.as_base(); let mut buf = String::new(); let o = b.resolve_into(IriRef::new(rf).unwrap(), &mut buf).as_str().to_string(); if o == buf { o } else { format!("{o} [but the buffer holds {buf}]") } })));
             typed.push(("BaseIri::resolve_into(IriRef<String>) in a cleared buffer", quiet(|| { let b = Iri::new(base.to_string()).unwrap().to_base(); let mut buf = String::from("s:previous/content"); buf.clear(); let o = b.resolve_into(IriRef::new(rf.to_string()).unwrap(), &mut buf).unwrap().to_string(); if o == buf { o } else { format!("{o} [but the buffer holds {buf}]") } })));
+            // the buffer is the caller's: whatever it held before must not show in the result (nor make the call panic)
+            typed.push(("BaseIri::resolve_into(IriRef<&str>) in a USED buffer", quiet(|| { let bi = Iri::new(base).unwrap(); let b = bi.as_base(); let mut buf = String::from("previous content"); let o = b.resolve_into(IriRef::new(rf).unwrap(), &mut buf).as_str().to_string(); if o == buf { o } else { format!("{o} [but the buffer holds {buf}]") } })));
+            typed.push(("BaseIri::resolve_into(IriRef<&str>) in a buffer holding the base", quiet(|| { let bi = Iri::new(base).unwrap(); let b = bi.as_base(); let mut buf = format!("{base}/../x:y?#"); let o = b.resolve_into(IriRef::new(rf).unwrap(), &mut buf).as_str().to_string(); if o == buf { o } else { format!("{o} [but the buffer holds {buf}]") } })));
             if rf_abs {
                 typed.push(("BaseIri::resolve(Iri<&str>)", quiet(|| { let bi = Iri::new(base).unwrap(); bi.as_base().resolve(Iri::new(rf).unwrap()).unwrap() })));
                 typed.push(("BaseIri::resolve(BaseIri<String>)", quiet(|| { let bi = Iri::new(base).unwrap(); bi.as_base().resolve(Iri::new(rf.to_string()).unwrap().to_base()).unwrap() })));
@@ -707,9 +710,12 @@ fn resolve_all(base: &str, base_abs: bool, rf: &str, rf_ref: bool, rf_abs: bool)
         typed.push(("IriRef<Arc<str>>::resolve(IriRef<Cow>)", quiet(|| IriRef::new(Arc::<str>::from(base)).unwrap().resolve(IriRef::new(Cow::Borrowed(rf)).unwrap()).unwrap())));
         typed.push(("BaseIriRef<String>::resolve(BaseIriRef<&str>)", quiet(|| { let ri = IriRef::new(rf).unwrap(); IriRef::new(base.to_string()).unwrap().to_base().resolve(ri.as_base()).unwrap() })));
         typed.push(("BaseIriRef::resolve_into(IriRef<&str>)", quiet(|| { let bi = IriRef::new(base).unwrap(); let b = bi.as_base(); let mut buf = String::new(); let o = b.resolve_into(IriRef::new(rf).unwrap(), &mut buf).as_str().to_string(); if o == buf { o } else { format!("{o} [but the buffer holds {buf}]") } })));
+        typed.push(("BaseIriRef::resolve_into(IriRef<&str>) in a USED buffer", quiet(|| { let bi = IriRef::new(base).unwrap(); let b = bi.as_base(); let mut buf = String::from("previous content"); let o = b.resolve_into(IriRef::new(rf).unwrap(), &mut buf).as_str().to_string(); if o == buf { o } else { format!("{o} [but the buffer holds {buf}]") } })));
+        typed.push(("BaseIriRef::resolve_into(IriRef<&str>) in a buffer holding the base", quiet(|| { let bi = IriRef::new(base).unwrap(); let b = bi.as_base(); let mut buf = format!("{base}/../x:y?#"); let o = b.resolve_into(IriRef::new(rf).unwrap(), &mut buf).as_str().to_string(); if o == buf { o } else { format!("{o} [but the buffer holds {buf}]") } })));
         if rf_abs { typed.push(("BaseIriRef::resolve(Iri<&str>)", quiet(|| { let bi = IriRef::new(base).unwrap(); bi.as_base().resolve(Iri::new(rf).unwrap()).unwrap() }))); }
     }
     strv.push(("BaseIriRef::resolve(&str)", quiet(|| { let bi = IriRef::new(base).unwrap(); bi.as_base().resolve(rf).map(|i| i.unwrap()).map_err(|e| format!("{e:?}")) }).map(|x| match x { Ok(t) => Some(t), Err(e) => { err.get_or_insert(e); None } })));
+    strv.push(("BaseIriRef::resolve_into(&str) in a USED buffer", quiet(|| { let b = IriRef::new(base.to_string()).unwrap().to_base(); let mut buf = String::from("s:previous/content?q#f"); let o = b.resolve_into(rf, &mut buf).ok().map(|i| i.as_str().to_string()); o.map(|o| if o == buf { o } else { format!("{o} [but the buffer holds {buf}]") }) })));
     strv.push(("BaseIriRef::resolve_into(&str)", quiet(|| { let b = IriRef::new(base.to_string()).unwrap().to_base(); let mut buf = String::new(); let o = b.resolve_into(rf, &mut buf).ok().map(|i| i.as_str().to_string()); o.map(|o| if o == buf { o } else { format!("{o} [but the buffer holds {buf}]") }) })));
     ResObs { typed, strv, err }
 }
